@@ -899,14 +899,24 @@ def rule_tyrule(ctx):
             if n == "check_args" and ck.startswith("fun::typing::check"):
                 p.events.append(("args", ctxsnap(I, args[2]), ctxsnap(I, args[4])))
                 return Adt("core::result::Result", "Ok", {"0": args[3]})
+            if n == "print_to_string":
+                v = I.deref(args[0])
+                if isinstance(v, Adt) and v.path == F + "types::TypeArgs" and isinstance(I.deref(v.fields.get("args")), Vec) and not I.deref(v.fields["args"]).items:
+                    return ""       # no type arguments: the instance is named like the template
+            if n in ("lookup_ty_for_ctor", "lookup_ty_for_dtor") and "symbol_table" in ck:
+                # which declared type the (co)constructor of that name belongs to
+                p.events.append(("owner-of", I.deref(args[2])))
+                own = decl("OWNER")
+                okv = Adt(None, None, {"0": own, "1": Vec([])}) if fr.f["locals"][t["dest"]["l"]]["ty"].count("(") and "Vec" in fr.f["locals"][t["dest"]["l"]]["ty"] else own
+                return Adt("core::result::Result", "Ok", {"0": okv})
             return NotImplemented
         A = fx.adts[adt]
         vals = {}
         for fd in A["variants"][0]["fields"]:
             vals[fd["name"]] = fields.get(fd["name"], Sym("self." + fd["name"]))
         st_fields = {fd["name"]: MapVal() for fd in fx.adts["fun::typing::symbol_table::SymbolTable"]["variants"][0]["fields"]}
-        if "defs" in fields.get("__table__", {}):
-            st_fields["defs"] = fields["__table__"]["defs"]
+        for tn, tv in fields.get("__table__", {}).items():
+            st_fields[tn] = tv
         st = Adt("fun::typing::symbol_table::SymbolTable", "SymbolTable", st_fields)
         I = Interp(fx, hooks=[hook], max_depth=4, max_paths=64)
         outs = I.run(f, [Adt(adt, A["variants"][0]["name"], vals), st, base_ctx(), decl("EXP")])
@@ -979,5 +989,12 @@ def rule_tyrule(ctx):
     table = {"defs": MapVal([("f", Adt(None, None, {"0": sig_ctx, "1": decl("RET")}))])}
     judge("call::Call", {"name": "f", "__table__": table}, [eq(EXP, "decl:RET"), ("args", BASE, (("p", "Prd", "decl:TP"),))])
     judge("call::Call", {"name": "g", "__table__": table}, [], ":undefined", want_err=True)
-    res.require_floor(15)
+    # constructors and destructors: the xtor must belong to the type it is used at, its arguments are checked against its signature
+    noargs = Adt(F + "types::TypeArgs", "TypeArgs", {"span": NONE, "args": Vec([])})
+    judge("constructor::Constructor", {"id": "K", "__table__": {"ctors": MapVal([("K", sig_ctx)])}},
+          [("tycheck", EXP), ("owner-of", "K"), ("args", BASE, (("p", "Prd", "decl:TP"),)), eq(EXP, "decl:OWNER")])
+    judge("constructor::Constructor", {"id": "K", "__table__": {"ctors": MapVal([("J", sig_ctx)])}}, [], ":undefined", want_err=True)
+    judge("destructor::Destructor", {"id": "d", "type_args": noargs, "__table__": {"dtors": MapVal([("d", Adt(None, None, {"0": sig_ctx, "1": decl("RET")}))])}},
+          [("owner-of", "d"), chk("scrutinee", BASE, "decl:OWNER"), ("args", BASE, (("p", "Prd", "decl:TP"),)), eq(EXP, "decl:RET")])
+    res.require_floor(18)
     return res
